@@ -1,7 +1,201 @@
-//! C19 - placeholder, replaced below.
-use crate::model::Analysis;
-use crate::oracle::{Aux, Tally, Violation};
+//! C19 - any port, either IP version: answers do not depend on where they were asked.
+//!
+//! History-based: application exchanges of one run that carry identical payload bytes (UDP) or
+//! identical streams in identical composition (TCP) are compared after masking the fields the
+//! statement exempts (endpoint-bearing fields, wall-clock timestamps).
 
-pub fn check(_a: &Analysis, _aux: &mut Aux, _t: &mut Tally) -> Vec<Violation> {
-    Vec::new()
+use std::collections::BTreeMap;
+
+use crate::apps::sig::identify_reply;
+use crate::apps::{dns, http, stun, App};
+use crate::model::Analysis;
+use crate::oracle::{Aux, Tally, Verdict, Violation};
+
+/// Normal form of an application reply with the exempt fields masked.
+fn normalise(r: &[u8]) -> (String, Vec<u8>) {
+    match identify_reply(r) {
+        Some(App::Http) => ("http".into(), http::mask_date(r)),
+        Some(App::Stun) => {
+            let mut out = Vec::new();
+            if let Some(m) = stun::parse(r) {
+                out.extend_from_slice(&m.ty.to_be_bytes());
+                out.extend_from_slice(&m.id);
+                for (t, v) in &m.attrs {
+                    out.extend_from_slice(&t.to_be_bytes());
+                    if *t != 1 {
+                        out.extend_from_slice(v);
+                    }
+                }
+            }
+            ("stun".into(), out)
+        }
+        Some(App::Rpc) => {
+            // record mark length, addresses / ports / netids and their XDR lengths are exempt:
+            // keep the reply header and the accept state
+            let b = if r.len() >= 28 && r[0] & 0x80 != 0 && r[8..12] == [0, 0, 0, 1] { &r[4..] } else { r };
+            let mut out = b[..b.len().min(24)].to_vec();
+            let stat = if b.len() >= 24 { u32::from_be_bytes([b[20], b[21], b[22], b[23]]) } else { 99 };
+            if stat != 0 {
+                out.extend_from_slice(&b[24.min(b.len())..]);
+            } else {
+                out.push((b.len() > 24) as u8);
+            }
+            ("rpc".into(), out)
+        }
+        Some(App::Dns) => {
+            let mut out = Vec::new();
+            match dns::decode(r) {
+                Ok(m) => {
+                    out.extend_from_slice(&r[..12]);
+                    for q in &m.questions {
+                        out.extend_from_slice(&q.raw);
+                    }
+                    for an in &m.answers {
+                        out.extend_from_slice(&an.name);
+                        out.extend_from_slice(&an.rtype.to_be_bytes());
+                        out.extend_from_slice(&an.rclass.to_be_bytes());
+                        out.extend_from_slice(&an.ttl.to_be_bytes());
+                    }
+                }
+                Err(_) => out.extend_from_slice(r),
+            }
+            ("dns".into(), out)
+        }
+        Some(App::Smb1) => {
+            let mut o = r.to_vec();
+            // negotiate response: SystemTime
+            if o.len() >= 68 && o[8] == 0x72 {
+                for b in o[60..68].iter_mut() {
+                    *b = 0;
+                }
+            }
+            ("smb1".into(), o)
+        }
+        Some(App::Smb2) => {
+            let mut o = r.to_vec();
+            if o.len() >= 124 && o[16] == 0 && o[17] == 0 {
+                for b in o[108..124].iter_mut() {
+                    *b = 0;
+                }
+            }
+            ("smb2".into(), o)
+        }
+        Some(App::Ssh) => ("ssh".into(), r.to_vec()),
+        Some(App::Ghost) => ("ghost".into(), r.to_vec()),
+        _ => ("other".into(), r.to_vec()),
+    }
+}
+
+fn describe(r: &Option<Vec<u8>>) -> String {
+    match r {
+        None => "no reply".into(),
+        Some(x) if x.is_empty() => "bare ACK".into(),
+        Some(x) => format!("{} reply of {} bytes", normalise(x).0, x.len()),
+    }
+}
+
+pub fn check(a: &Analysis, _aux: &mut Aux, t: &mut Tally) -> Vec<Violation> {
+    let mut v = Vec::new();
+    // ---- datagrams with identical payload
+    let ux = a.udp_exchanges();
+    let mut groups: BTreeMap<&[u8], Vec<usize>> = BTreeMap::new();
+    for (k, x) in ux.iter().enumerate() {
+        if !x.payload.is_empty() {
+            groups.entry(x.payload).or_default().push(k);
+        }
+    }
+    for (_, g) in groups {
+        let base = &ux[g[0]];
+        for k in g.iter().skip(1) {
+            let o = &ux[*k];
+            if (o.sport, o.dport, o.v6) == (base.sport, base.dport, base.v6) {
+                continue; // a duplicate of the same datagram, not a pair
+            }
+            let what = format!(
+                "{}{}",
+                if o.v6 != base.v6 { "ipversion" } else { "" },
+                if (o.sport, o.dport) != (base.sport, base.dport) { "+ports" } else { "" }
+            );
+            let (rb, ro) = (base.reply.map(|x| x.to_vec()), o.reply.map(|x| x.to_vec()));
+            let fam = rb.as_ref().map(|x| normalise(x).0).unwrap_or("silence".into());
+            t.judged(if rb.is_some() { Verdict::Reply } else { Verdict::Silent }, format!("udp|{}|{}", fam, what));
+            if [base.sport, base.dport, o.sport, o.dport].iter().any(|p| *p == 0 || *p == 65535) {
+                t.probe("pair-with-port-0-or-65535");
+            }
+            let same = match (&rb, &ro) {
+                (None, None) => true,
+                (Some(x), Some(y)) => normalise(x) == normalise(y),
+                _ => false,
+            };
+            if !same {
+                v.push(Violation {
+                    prop: "C19",
+                    rule: "udp-pair".into(),
+                    key: format!("udp-answer-depends-on:{}:{}", what, fam),
+                    step: a.steps[o.si].idx,
+                    detail: format!(
+                        "the same {}-byte payload got {} at {}:{}->{}:{} but {} at {}:{}->{}:{}",
+                        base.payload.len(), describe(&rb), base.src, base.sport, base.dst, base.dport,
+                        describe(&ro), o.src, o.sport, o.dst, o.dport
+                    ),
+                });
+            }
+        }
+    }
+    // ---- streams with identical bytes and identical composition
+    let streams = a.tcp_streams();
+    let mut sg: BTreeMap<(Vec<u8>, Vec<usize>), Vec<usize>> = BTreeMap::new();
+    for (k, st) in streams.iter().enumerate() {
+        if st.dirty || st.stream.is_empty() {
+            continue;
+        }
+        let comp: Vec<usize> = st.segs.iter().map(|s| s.len).collect();
+        sg.entry((st.stream.clone(), comp)).or_default().push(k);
+    }
+    for (_, g) in sg {
+        let base = &streams[g[0]];
+        for k in g.iter().skip(1) {
+            let o = &streams[*k];
+            let bv6 = matches!(base.flow.src, std::net::IpAddr::V6(_));
+            let ov6 = matches!(o.flow.src, std::net::IpAddr::V6(_));
+            let what = format!(
+                "{}{}",
+                if ov6 != bv6 { "ipversion" } else { "" },
+                if (o.flow.sport, o.flow.dport) != (base.flow.sport, base.flow.dport) { "+ports" } else { "" }
+            );
+            if what.is_empty() {
+                continue;
+            }
+            let fam = base
+                .segs
+                .iter()
+                .filter_map(|s| s.reply_app.as_ref())
+                .find(|r| !r.is_empty())
+                .map(|r| normalise(r).0)
+                .unwrap_or("silence".into());
+            t.judged(if fam == "silence" { Verdict::Silent } else { Verdict::Reply }, format!("tcp|{}|{}|segs{}", fam, what, base.segs.len().min(4)));
+            for (i, (sb, so)) in base.segs.iter().zip(o.segs.iter()).enumerate() {
+                let same = match (&sb.reply_app, &so.reply_app) {
+                    (None, None) => true,
+                    (Some(x), Some(y)) => normalise(x) == normalise(y),
+                    _ => false,
+                };
+                if !same {
+                    v.push(Violation {
+                        prop: "C19",
+                        rule: "tcp-pair".into(),
+                        key: format!("tcp-answer-depends-on:{}:{}", what, fam),
+                        step: a.steps[so.si].idx,
+                        detail: format!(
+                            "segment {} of the same stream in the same composition got {} on {}:{}->{}:{} but {} on {}:{}->{}:{}",
+                            i, describe(&sb.reply_app), base.flow.src, base.flow.sport, base.flow.dst, base.flow.dport,
+                            describe(&so.reply_app), o.flow.src, o.flow.sport, o.flow.dst, o.flow.dport
+                        ),
+                    });
+                    break;
+                }
+            }
+        }
+    }
+    v
 }
